@@ -12,7 +12,8 @@ Inductive stack :=
 | SLevel
 | SCached (s : stack)
 | SBatched (limit : Z) (s : stack)
-| SFmt (f : fkind) (s : stack).
+| SFmt (f : fkind) (s : stack)
+| SFmtR (f : fkind) (s : stack).     (* random (non-deterministic) key formatting *)
 
 Definition fmt_of (f : fkind) : formatter := match f with FNoop => noop_fmt | FB64 => b64_fmt end.
 
@@ -24,10 +25,11 @@ Fixpoint prov_of (s : stack) : prov :=
   | SCached s' => cached true (prov_of s')
   | SBatched l s' => batched l (prov_of s')
   | SFmt f s' => formatted_det (fmt_of f) (prov_of s')
+  | SFmtR f s' => formatted_rand true (fmt_of f) (prov_of s')
   end.
 
 Fixpoint persistent (s : stack) : bool :=
-  match s with SMem => false | SLevel => true | SCached s' | SBatched _ s' | SFmt _ s' => persistent s' end.
+  match s with SMem => false | SLevel => true | SCached s' | SBatched _ s' | SFmt _ s' | SFmtR _ s' => persistent s' end.
 
 (* every wrapper is flushed (outermost first), then new wrapper objects are built over the provider that holds the data *)
 Fixpoint rewrap (s : stack) : St (prov_of s) -> St (prov_of s) :=
@@ -37,6 +39,7 @@ Fixpoint rewrap (s : stack) : St (prov_of s) -> St (prov_of s) :=
   | SCached s' => fun x => (rewrap s' (fst x), [])
   | SBatched l s' => fun x => (rewrap s' (fst (fst (bflush (prov_of s') x))), [])
   | SFmt _ s' => fun x => rewrap s' x
+  | SFmtR _ s' => fun x => (rewrap s' (fst x), snd x)
   end.
 
 Inductive hop := Op (o : op) | Rewrap.
